@@ -1,25 +1,22 @@
-// Command check runs one property check:
-//
-//	check <Cxx> [--tier quick|thorough] [--replay file] [--sub selector]
-package main
+package mc
 
 import (
 	"fmt"
 	"os"
 	"strconv"
-
-	_ "verif/checks"
-	"verif/mc"
 )
 
-func main() {
+// Main is the command line of every check binary:
+//
+//	<binary> <Cxx>|list [--tier quick|thorough] [--replay file] [--sub selector]
+func Main() {
 	if len(os.Args) < 2 {
 		fmt.Println("usage: check <id>|list [--tier quick|thorough] [--replay file]")
 		os.Exit(2)
 	}
 	id := os.Args[1]
 	if id == "list" {
-		for _, i := range mc.IDs() {
+		for _, i := range IDs() {
 			fmt.Println(i)
 		}
 		return
@@ -55,13 +52,13 @@ func main() {
 	if root == "" {
 		root = "/verif"
 	}
-	c := mc.Lookup(id)
+	c := Lookup(id)
 	if c == nil {
 		fmt.Println("unknown check", id)
 		os.Exit(2)
 	}
 	if replay != "" {
-		os.Exit(mc.RunReplay(c, replay, root))
+		os.Exit(RunReplay(c, replay, root))
 	}
-	os.Exit(mc.RunCheck(c, tier, seed, root, sub))
+	os.Exit(RunCheck(c, tier, seed, root, sub))
 }
